@@ -1045,3 +1045,58 @@ fn c09_bigint_saturated() {
     let want = if x > MAXI { isize::MAX } else if x < MINI { isize::MIN } else { x as isize };
     assert!(got == want);
 }
+
+// ------------------------------------------------------------------------------------------
+// C10 / C02: which position function each container's slice accessor uses, and that it returns
+// exactly the part the position function selects.  Modular: `skip_take_chars` / `skip_take_bytes` /
+// `skip_take` are replaced by ghost stubs that record who was called and return an arbitrary
+// in-range (skip, take); their own contracts are O-C10-chars*, O-C10-skiptake*.  Container
+// values are concrete (symbolic `Val`s do not fit CBMC): one per kind.
+// ------------------------------------------------------------------------------------------
+static mut POS_FN: u8 = 0;
+static mut POS_RET: (usize, usize) = (0, 0);
+fn ghost_chars(_r: val::Range<PosUsize>, _b: &[u8]) -> (usize, usize) {
+    unsafe {
+        POS_FN = 1;
+        POS_RET
+    }
+}
+fn ghost_bytes(_r: val::Range<PosUsize>, _b: &[u8]) -> (usize, usize) {
+    unsafe {
+        POS_FN = 2;
+        POS_RET
+    }
+}
+/// `.[a:b]` (read) on a text string asks `skip_take_chars`, on a byte string `skip_take_bytes`,
+/// and returns exactly the part the position function selects (here: skip 1, take 2 of the 4
+/// bytes "a\xc3\xa4b"; a symbolic (skip, take) or all kinds in one harness exceed 600 s)
+#[kani::proof]
+#[kani::unwind(8)]
+#[kani::stub(crate::skip_take_chars, ghost_chars)]
+#[kani::stub(crate::skip_take_bytes, ghost_bytes)]
+fn c10_range_dispatch_text() {
+    use jaq_core::ValT as _;
+    unsafe {
+        POS_RET = (1, 2);
+        POS_FN = 0;
+    }
+    let (s, e) = (MD::new(Val::Num(Num::Int(1))), MD::new(Val::Num(Num::Int(2))));
+    let r = MD::new(Val::utf8_str(Vec::from(*b"a\xc3\xa4b")).range(Some(&*s)..Some(&*e)));
+    assert!(unsafe { POS_FN } == 1);
+    assert!(matches!(&*r, Ok(Val::TStr(b)) if &b[..] == b"\xc3\xa4"));
+}
+#[kani::proof]
+#[kani::unwind(8)]
+#[kani::stub(crate::skip_take_chars, ghost_chars)]
+#[kani::stub(crate::skip_take_bytes, ghost_bytes)]
+fn c10_range_dispatch_bytes() {
+    use jaq_core::ValT as _;
+    unsafe {
+        POS_RET = (1, 2);
+        POS_FN = 0;
+    }
+    let (s, e) = (MD::new(Val::Num(Num::Int(1))), MD::new(Val::Num(Num::Int(2))));
+    let r = MD::new(Val::byte_str(Vec::from(*b"a\xc3\xa4b")).range(Some(&*s)..Some(&*e)));
+    assert!(unsafe { POS_FN } == 2);
+    assert!(matches!(&*r, Ok(Val::BStr(b)) if &b[..] == b"\xc3\xa4"));
+}
